@@ -322,7 +322,7 @@ fn c08_gravsoft_units() {
     }
 }
 
-//@h {"id":"C08.K.canary","props":["C08","C15"],"tier":"quick","kind":"canary","timeout":300,"text":"canary: at() claimed to return the SW corner value everywhere in a cell must FAIL"}
+//@h {"id":"C08.K.canary","props":["C08","C15","C10"],"tier":"quick","kind":"canary","timeout":300,"text":"canary: at() claimed to return the SW corner value everywhere in a cell must FAIL"}
 #[kani::proof]
 #[kani::unwind(30)]
 fn c08_canary() {
